@@ -691,3 +691,7 @@ func init() {
 		return fmt.Sprintf("reg has=%d rid=%d", b, uint16(h.ReplyProtocol()))
 	})
 }
+
+// RpDig / RpCs: the digests used in canonical answers (the oracle drivers compute the same)
+func RpDig(l []string) uint64 { return rpDig(l) }
+func RpCs(b []byte) uint32    { return rpCs(b) }
